@@ -614,12 +614,15 @@ Section Sound.
           { intros kv Hin. unfold unknown_entries in Hin. apply filter_In in Hin. destruct Hin as [Hin Hm].
             split; [exact Hin|]. destruct (has_key (fst kv) props) eqn:Ekk; [|reflexivity].
             rewrite (HK kv Hin Ekk) in Hm. discriminate. }
-          exists (S (S f)). split; [eexists; eexists; reflexivity|].
+          exists (S (S f)). split; [left; eexists; eexists; exact Efp|].
+          apply (flats_ok_one_map T _ _ _ _ _ Efp).
           apply (map_de _ _ _ _ _ Efp Ek). intros kv Hin. apply acc_S. apply Hf. exact Hin. }
       destruct HA as [fa HA]. destruct HB as [fb HB].
       exists (Nat.max fa fb). apply de_struct_obj_ok. split.
       - apply (de_named_mono re_match native_ok T fa); [lia | exact HA].
-      - revert HB. apply flat_stage_lift. intros t j. apply acc_mono. lia.
+      - revert HB. apply flat_stage_lift.
+        + intros t j. apply acc_mono. lia.
+        + intros t k0 v0 s1 s2. apply map_sub_mono. lia.
     Qed.
 
     Lemma struct_sound ty fmt enum cst nv sv ik items ai mni mxi uq props req ap mnp mxp allo anyo oneo no dflt title
